@@ -62,11 +62,13 @@ func (s *defaultSender) updateWindow(add uint32) {
 		return
 	}
 	prevWindow := s.currentWindow.Add(add) - add
+	verifYield("upd.added", int64(prevWindow))
 	if prevWindow == 0 {
 		select {
 		case s.windowUpdates <- struct{}{}:
 		default:
 		}
+		verifYield("upd.signalled", 0)
 	}
 }
 
@@ -81,14 +83,17 @@ func (s *defaultSender) send(data []byte) error {
 	first := true
 	for {
 		windowSz := s.currentWindow.Load()
+		verifYield("snd.loaded", int64(windowSz))
 
 		if windowSz == 0 {
 			// must wait for window size update before we can send more
 			select {
 			case <-s.windowUpdates:
 			case <-s.ctx.Done():
+				verifYield("snd.ctxdone", 0)
 				return s.ctx.Err()
 			}
+			verifYield("snd.woken", 0)
 			continue
 		}
 
@@ -100,8 +105,10 @@ func (s *defaultSender) send(data []byte) error {
 			chunkSz = chunkMax
 		}
 		if !s.currentWindow.CompareAndSwap(windowSz, windowSz-chunkSz) {
+			verifYield("snd.cas.fail", int64(windowSz))
 			continue
 		}
+		verifYield("snd.cas.ok", int64(chunkSz))
 
 		last := chunkSz == uint32(len(data))
 		if err := s.sendFunc(data[:chunkSz], size, first); err != nil {
